@@ -19,8 +19,10 @@
  *      with complementary fill);
  *  (3) agreement between sources for quantities that are the encoder's own
  *      choice (FOR/PFOR width, PFOR exception count and marker, RLE run
- *      count, adaptive encoding type): encoder meta == header reader ==
- *      decoder-side meta, plus plausibility from the input (1 <= width <= 8,
+ *      count, adaptive encoding type): encoder meta == header reader (the
+ *      decoders' in/out PFOR metadata is neither and is not looked at; of a
+ *      decode-side varintAdaptiveMeta only originalCount and encodingType
+ *      are), plus plausibility from the input (1 <= width <= 8,
  *      the range fits the width, marker == all-ones of `width` bytes, every
  *      value whose offset cannot be stored in `width` bytes is an exception,
  *      exceptionCount <= count, maximal runs <= runCount <= count);
@@ -253,7 +255,7 @@ static size_t raw_encode(const rec *R, uint8_t *dst, metas *m) {
  * float: bytes consumed); output in *out (malloc'd, *outbytes long) */
 static size_t raw_decode(const rec *R, const uint8_t *src, void **out,
                          size_t *outbytes, varintAdaptiveMeta *am,
-                         uint8_t *fields, varintPFORMeta *pm) {
+                         uint8_t *fields) {
     const size_t n = R->n;
     const size_t esz = m_is32(R->k) ? 4 : 8;
     void *o = vf_exact_alloc(n * esz);
@@ -265,9 +267,14 @@ static size_t raw_decode(const rec *R, const uint8_t *src, void **out,
         return varintFORDecode(src, (uint64_t *)o, n);
     case M_FOR_BATCH:
         return varintFORBatchDecode(src, (uint64_t *)o, n);
-    case M_PFOR:
-        memset(pm, 0, sizeof(*pm)); /* documented: width == 0 => read header */
-        return varintPFORDecode(src, (uint64_t *)o, pm);
+    case M_PFOR: {
+        /* width == 0 => the decoder reads the header itself.  Whether it
+         * writes anything back into this struct is not documented (only the
+         * return value is), so nothing is read from it afterwards. */
+        varintPFORMeta dm;
+        memset(&dm, 0, sizeof(dm));
+        return varintPFORDecode(src, (uint64_t *)o, &dm);
+    }
     case M_GROUP:
         return varintGroupDecode(src, (uint64_t *)o, fields, n);
     case M_RLE:
@@ -355,7 +362,7 @@ static int pfor_plausible(vf_report *rep, const rec *R, const char *where,
     return 1;
 }
 
-/* a second source (header reader, decoder-side meta) against the first */
+/* a second source (the header reader) against the first (the encoder) */
 static int pfor_agree(vf_report *rep, const rec *R, const char *where,
                       const char *site, const char *srcB,
                       const varintPFORMeta *B, const char *srcA,
@@ -775,10 +782,8 @@ static int rec_check(vf_report *rep, rec *R, uint8_t *dst, const char *where,
     /* the reported count equals the number of elements decoding yields */
     varintAdaptiveMeta dm;
     memset(&dm, POISON, sizeof(dm));
-    varintPFORMeta dpm;
-    memset(&dpm, 0, sizeof(dpm));
     uint8_t fields = 0xEE;
-    size_t r = raw_decode(R, dst, &R->dec, &R->decbytes, &dm, &fields, &dpm);
+    size_t r = raw_decode(R, dst, &R->dec, &R->decbytes, &dm, &fields);
     if (vf_exact_check(R->dec)) {
         vf_fail(rep, S_dec, "canary",
                 "%s n=%zu%s: decoding with capacity n wrote behind the output",
@@ -794,26 +799,14 @@ static int rec_check(vf_report *rep, rec *R, uint8_t *dst, const char *where,
         CHK(S_dec, "count", "field count from varintGroupDecode", fields, n);
     } else {
         CHK(S_dec, "count", "elements yielded by the decoder", r, n);
-        if (k == M_PFOR) {
-            /* the decoder fills the caller's zeroed meta from the record */
-            if (!pfor_agree(rep, R, where, S_dec, "decode-side meta", &dpm,
-                            "the encoder's meta", &m.p, mn)) {
-                return 0;
-            }
-        }
         if (m_is_adaptive(k)) {
             unsigned type = (unsigned)varintAdaptiveGetEncodingType(dst);
             CHK(S_dec, "count", "decode-side meta.originalCount",
                 dm.originalCount, r);
+            /* only these two are documented outputs of a decode; the
+             * encoding-specific union is not compared */
             AGREE(S_dec, "field", "decode-side meta.encodingType",
                   dm.encodingType, "varintAdaptiveGetEncodingType", type);
-            if (type == VARINT_ADAPTIVE_PFOR &&
-                !pfor_agree(rep, R, where, S_dec,
-                            "decode-side meta.encodingMeta.pforMeta",
-                            &dm.encodingMeta.pforMeta, "the encoder's pforMeta",
-                            &m.a.encodingMeta.pforMeta, mn)) {
-                return 0;
-            }
         }
     }
     if (extent && k != M_GAMMA && k != M_EDELTA) {
@@ -903,15 +896,13 @@ static void run_records(vf_report *rep, rec *R, size_t nrec) {
      * that steps through records: each decode sees what the previous one (of
      * another record) left in it */
     varintAdaptiveMeta dm;
-    varintPFORMeta dpm;
     memset(&dm, 0, sizeof(dm));
     for (size_t j = 0; j < nrec && ok && !rep->violated; j++) {
         rec *Q = &R[j];
         void *out = NULL;
         size_t outbytes = 0;
         uint8_t fields = 0;
-        size_t r =
-            raw_decode(Q, w + offs[j], &out, &outbytes, &dm, &fields, &dpm);
+        size_t r = raw_decode(Q, w + offs[j], &out, &outbytes, &dm, &fields);
         size_t want = Q->k == M_FLOAT || Q->k == M_GROUP ? Q->written : Q->n;
         if (r != want || outbytes != Q->decbytes ||
             memcmp(out, Q->dec, outbytes) != 0) {
